@@ -164,4 +164,28 @@ example :
   intro C s1 s2
   exact ⟨by decide +kernel, by decide +kernel, by decide +kernel, by decide +kernel, by decide +kernel⟩
 
+open Relsad.Control in
+/-- … and with sensors / intelligent switches failing by themselves the weaker form still holds (a section may then be
+out because of a false alarm): a line that is out of service carries an open breaker, or lies in — or carries an open
+disconnector listed by — a section that is out of service. -/
+theorem outage_has_reason_devices (C : Cfg) (hC : wfB C = true) (hC2 : wfB2 C = true) (s : St) (hs : C05.ReachD C s)
+    (l : Nat) (hl : l < C.lines.length) (hout : gb s.conn l = false) :
+    BrOpen C s l ∨ ∃ k, k < C.secs.length ∧ gb s.secConn k = false ∧
+      (l ∈ (secOf C k).lines ∨ ∃ d ∈ (lineOf C l).discons, Sw.discon d ∈ (secOf C k).switches ∧ gb s.dOpen d = true) := by
+  have w := WF.of_wfB C hC
+  have w2 := WF2.of_wfB2 C hC2
+  have t := C05.reachD_trio C w w2 s hs
+  have own : gb s.secConn (lineOf C l).sec = false →
+      ∃ k, k < C.secs.length ∧ gb s.secConn k = false ∧
+        (l ∈ (secOf C k).lines ∨ ∃ d ∈ (lineOf C l).discons, Sw.discon d ∈ (secOf C k).switches ∧ gb s.dOpen d = true) :=
+    fun h => ⟨_, w.line_sec_lt l hl, h, Or.inl (w.line_mem_sec l hl)⟩
+  rcases t.g.line l hl hout with h1 | h1 | ⟨d, hd, hdo⟩
+  · exact Or.inr (own h1)
+  · exact Or.inl h1
+  · have hdl := w.line_discons l hl d hd
+    rcases t.g.discon d hdl.1 hdo with h2 | h2 | ⟨k, hk, hsw, hko⟩
+    · rw [hdl.2] at h2; exact Or.inr (own h2)
+    · rw [hdl.2] at h2; exact Or.inl h2
+    · exact Or.inr ⟨k, hk, hko, Or.inr ⟨d, hd, hsw, hdo⟩⟩
+
 end Relsad.C07
